@@ -2922,6 +2922,14 @@ def emit(ast: Program) -> str:
             if key not in pin_mode_emitted:
                 pin_mode_emitted.add(key)
                 setup_lines.append(f"  pinMode({pin_expr}, {node.mode});")
+            if node.name not in button_init_emitted:
+                # same initial sample as for a button declared before the loop: a button
+                # that is held down at start-up must not count as a click
+                setup_lines.append(
+                    f"  {prev_var} = (digitalRead({pin_expr}) == HIGH);"
+                )
+                setup_lines.append(f"  {value_var} = {prev_var};")
+                button_init_emitted.add(node.name)
             continue
 
         if isinstance(node, ServoDecl):
